@@ -139,6 +139,7 @@ ASSUMPTIONS = [
 ERRNO = {"timeout": nfc.tag.TIMEOUT_ERROR, "transmission": nfc.tag.RECEIVE_ERROR,
          "protocol": nfc.tag.PROTOCOL_ERROR}
 KINDS = ("timeout", "transmission", "protocol")
+ERRNO["empty"] = nfc.tag.RECEIVE_ERROR
 BURSTS = (1, 2, 3, 4, 0)          # 0 = persistent
 PHASES = ("cmd", "rsp")
 
@@ -1104,6 +1105,12 @@ def enum_faults(tier, seed):
                         for phase in PHASES:
                             yield {"fixture": fx, "op": op,
                                    "fault": [k, kind, burst, phase]}
+                if fx.startswith("t4t"):
+                    # Type 4: the driver returns a frame without a single
+                    # octet (tt4.py takes that for a transmission error)
+                    for burst in bursts:
+                        yield {"fixture": fx, "op": op,
+                               "fault": [k, "empty", burst, "rsp"]}
 
 
 def gen_case(tier):
